@@ -11,4 +11,10 @@ for p in "$@"; do
   ./check $p > /tmp/run_seed_$p.out 2>&1; rc=$?
   echo "--- $p rc=$rc"; grep -E "^==|^FINDING|^VIOLATION|^ANCHOR" /tmp/run_seed_$p.out | cut -c1-260 | head -12
 done
-git -C /repo checkout -- . ; git -C /repo status --short | head -3
+# another git process (a worktree being confirmed) can hold the index lock for a moment: retry until /repo is clean again
+for i in 1 2 3 4 5 6 7 8 9 10; do
+  git -C /repo checkout -- . 2>/dev/null
+  [ -z "$(git -C /repo status --short)" ] && break
+  sleep 2
+done
+git -C /repo status --short | head -3
